@@ -165,7 +165,7 @@ func processChunk(spec chunkSpec) *chunkResult {
 		go func() {
 			defer wg.Done()
 			for idx := range jobs {
-				sc := genScenario(idx, seedCtx.RandN(spec.Stream, idx), genOpts{maxEvents: spec.MaxEvents, natural: spec.Natural, late: spec.Prop != "C01"})
+				sc := genScenario(idx, seedCtx.RandN(spec.Stream, idx), genOpts{maxEvents: spec.MaxEvents, natural: spec.Natural, late: spec.Prop != "C01", affected: true})
 				r := newRun(sc, initialSnapshot(sc), 0, true, spec.Seed)
 				r.execute()
 				var restarts []restartOutcome
@@ -252,6 +252,7 @@ func account(a *chunkAcc, prop string, r *run, restarts []restartOutcome) {
 		st["log_entries"] += s.owed
 		st["entries_delivered"] += s.delivered
 		st["entries_exempt_too_long"] += s.exempt
+		st["entries_self_initiated_position_only"] += s.affected
 		st["entries_not_owed_channel_unseen_or_before_first_sight"] += s.notOwed
 		st["entries_owed_of_first_seen_channels"] += s.lateOwed
 		st["entries_applied_from_push"] += s.viaPush
@@ -329,7 +330,32 @@ func crashSig(class, stderr string) string {
 		}
 	}
 	frame := tdFrame.FindString(stderr)
+	if i := strings.Index(frame, "(0x"); i >= 0 {
+		frame = frame[:i] // drop argument values: the signature must be stable
+	}
 	return fmt.Sprintf("mgr|library-crash|%s|%s|%s", class, reason, strings.TrimPrefix(frame, "github.com/gotd/td/"))
+}
+
+// harnessPanic reports whether the panicking frame (first frame below the
+// runtime's panic frames) belongs to the harness itself: a harness bug, never a
+// finding.
+func harnessPanic(stderr string) bool {
+	lines := strings.Split(stderr, "\n")
+	for i, l := range lines {
+		if !strings.HasPrefix(l, "goroutine ") || !strings.Contains(l, "[running]") {
+			continue
+		}
+		for _, f := range lines[i+1:] {
+			if strings.HasPrefix(f, "\t") || f == "" {
+				continue
+			}
+			if strings.HasPrefix(f, "panic(") || strings.HasPrefix(f, "runtime.") {
+				continue
+			}
+			return strings.HasPrefix(f, "main.")
+		}
+	}
+	return false
 }
 
 // runMgr drives n scenarios of stream through child batches and merges the
@@ -376,9 +402,13 @@ func runMgr(c *mon.Ctx, prop, stream string, n, maxEvents int, natural bool, cra
 					c.Inconclusive(fmt.Sprintf("scenario %d: child %s", spec.From, o.Class))
 					continue
 				}
+				if harnessPanic(o.Stderr) {
+					c.Inconclusive(fmt.Sprintf("scenario %d: panic in harness code: %s", spec.From, o.Stderr[:min(len(o.Stderr), 400)]))
+					continue
+				}
 				c.Violate(crashSig(o.Class, o.Stderr), map[string]any{"case": map[string]any{"level": "mgr", "index": spec.From},
 					"class": o.Class, "stderr": o.Stderr,
-					"scenario": genScenario(spec.From, c.RandN(stream, spec.From), genOpts{maxEvents: maxEvents, natural: natural, late: prop != "C01"})})
+					"scenario": genScenario(spec.From, c.RandN(stream, spec.From), genOpts{maxEvents: maxEvents, natural: natural, late: prop != "C01", affected: true})})
 				c.Eval(1)
 				continue
 			}
@@ -472,6 +502,7 @@ func runC01(c *mon.Ctx) {
 func runC02(c *mon.Ctx) {
 	c.Rule("finite server logs mixing new messages, pts-bearing non-message updates (delete 1..3, read, edit), qts updates and channel updates for 1..2 tracked channels; " +
 		"in half of the logs one more channel that is NOT in the initial storage and is first seen through a pushed update or a difference's other_updates (owed from pts-pts_count of first sight); " +
+		"self-initiated read/delete entries that occupy pts ranges, owe nothing to the handler and are announced only through Manager.HandleAffected (in order, late, duplicated, lost); " +
 		"containers pushed with loss 0/20/60/100 %, duplicates, reordering window, seq-bearing containers, short messages, unknown senders, injected RPC failures; " +
 		"fake getDifference/getChannelDifference answer like Telegram (messages in new_messages, every other entry in other_updates with its real pts/pts_count/qts, " +
 		"sliced or not, too-long variants); recovery forced by updatesTooLong + updateChannelTooLong and decided by explicit barriers (no timers), repeated to a fixpoint; " +
